@@ -511,3 +511,107 @@ def _(a):
 @cpe.ensures("values of the range are kept when a variable is replaced by its range")
 def _(a):
     return in_gamma(a.result, a.ghost.v)
+
+
+# ----------------------------------------------------------------------------
+# arg_range_analysis: fast path and the binary searches of the slow path
+
+cara = contract("C13", F, "arg_range_analysis")
+_ARG = Sym("n")
+
+def _ara_proc():
+    from exo.core.memory import DRAM
+    return LoopIR.proc("p", [LoopIR.fnarg(_ARG, T.size, None, SRC)], [], [LoopIR.Pass(SRC)], None, SRC)
+
+@cara.inputs
+def _(g):
+    ty = g.choose([T.size, T.index], "arg type")
+    p = _ara_proc()
+    return {"proc": p, "arg": LoopIR.fnarg(_ARG, ty, None, SRC), "fast": g.choose([True, False], "fast")}
+
+@cara.requires
+def _(a):
+    # a size argument is positive (front end: sizes are asserted > 0)
+    return rho(_ARG) >= 1 if isinstance(a.arg.type, T.Size) else True
+
+@cara.ensures("the reported argument range contains the argument's value")
+def _(a):
+    return bound_ok(a.result, rho(_ARG))
+
+cara.callee("Check_ExprBound",
+            result=lambda g, a: g.bool("bound_holds"),
+            ensures=lambda a: Implies(a.result, {"<": ev(a.expr) < a.value, "<=": ev(a.expr) <= a.value,
+                                                 ">": ev(a.expr) > a.value, ">=": ev(a.expr) >= a.value,
+                                                 "==": ev(a.expr) == a.value}[a.op]),
+            assumed=True,
+            note="Check_ExprBound(proc, stmts, e, op, v, exception=False) returns True only if `e op v` holds for "
+                 "every input satisfying the procedure's assertions (SMT-based; conditions under C01(b))")
+for _q, _inv in (("arg_range_analysis.binary_search_lower_bound",
+                  lambda env: True if env.result is None else rho(_ARG) >= env.result),
+                 ("arg_range_analysis.binary_search_upper_bound",
+                  lambda env: True if env.result is None else rho(_ARG) <= env.result)):
+    cara.loop(_q, 0, invariant=_inv,
+              havoc={"left": lambda g: g.int("left"), "right": lambda g: g.int("right"),
+                     "result": lambda g: g.optint("result")},
+              decreases=lambda env: env.right - env.left + 1)
+
+
+# IndexRangeEnvironment.__init__: the initial environment is sound
+cinit = contract("C13", F, "IndexRangeEnvironment.__init__")
+_N2, _K2 = Sym("n"), Sym("k")
+
+@cinit.inputs
+def _(g):
+    args = [LoopIR.fnarg(_N2, T.size, None, SRC), LoopIR.fnarg(_K2, T.index, None, SRC)]
+    pred = LoopIR.BinOp("<=", LoopIR.Read(_N2, [], T.size, SRC), LoopIR.Const(g.int("ub"), T.int, SRC), T.bool, SRC)
+    preds = [pred] if g.choose([False, True], "has assertion") else []
+    p = LoopIR.proc("p", args, preds, [LoopIR.Pass(SRC)], None, SRC)
+    return {"self": object.__new__(RA.IndexRangeEnvironment), "proc": p, "fast": g.choose([True, False], "fast")}
+
+@cinit.requires
+def _(a):
+    return rho(_N2) >= 1
+
+@cinit.ensures("every recorded argument range contains the argument's value")
+def _(a):
+    return env_sound(dict(a.self.env))
+
+cinit.callee("arg_range_analysis",
+             result=lambda g, a: (g.optint("ar_lo"), g.optint("ar_hi")),
+             ensures=lambda a: bound_ok(a.result, rho(a.arg.name)),
+             requires=lambda a: rho(a.arg.name) >= 1 if isinstance(a.arg.type, T.Size) else True,
+             assumed=False, note="proved above")
+
+
+# get_stride_of: coefficient of a variable in a linear base
+cgso = contract("C13", F, "IndexRange.get_stride_of")
+_SV, _SO = Sym("i"), Sym("j")
+
+@cgso.inputs
+def _(g):
+    rd = lambda s: LoopIR.Read(s, [], T.index, SRC)
+    k = g.choose(["i", "j", "c*i", "i*c", "c*i+j", "j-i", "-(i)", "c*i+d*i"], "base")
+    cst = lambda n: LoopIR.Const(g.int(n), T.int, SRC)
+    mul = lambda a, b: LoopIR.BinOp("*", a, b, T.index, SRC)
+    base = {"i": lambda: rd(_SV), "j": lambda: rd(_SO), "c*i": lambda: mul(cst("c"), rd(_SV)),
+            "i*c": lambda: mul(rd(_SV), cst("c")),
+            "c*i+j": lambda: LoopIR.BinOp("+", mul(cst("c"), rd(_SV)), rd(_SO), T.index, SRC),
+            "j-i": lambda: LoopIR.BinOp("-", rd(_SO), rd(_SV), T.index, SRC),
+            "-(i)": lambda: LoopIR.USub(rd(_SV), T.index, SRC),
+            "c*i+d*i": lambda: LoopIR.BinOp("+", mul(cst("c"), rd(_SV)), mul(cst("d"), rd(_SV)), T.index, SRC)}[k]()
+    return {"self": IndexRange(base, 0, 0), "idx": _SV, "__ghost__": {"delta": g.int("delta")}}
+
+@cgso.ensures("moving the variable by delta moves the base by stride * delta")
+def _(a):
+    # value of the base at rho[i := rho(i) + delta] minus its value at rho
+    d = a.ghost.delta
+    def at(e, shift):
+        if isinstance(e, LoopIR.Read):
+            return rho(e.name) + (shift if e.name is _SV else 0)
+        if isinstance(e, LoopIR.Const):
+            return e.val
+        if isinstance(e, LoopIR.USub):
+            return -at(e.arg, shift)
+        l, r = at(e.lhs, shift), at(e.rhs, shift)
+        return {"+": l + r, "-": l - r, "*": l * r}[e.op]
+    return at(a.self.base, d) - at(a.self.base, 0) == a.result * d
